@@ -108,6 +108,20 @@ def forget_histories(rng, mt, slow):
     return first + rest + [{"a": "GetPlannerData"}, {"a": "Destroy"}], rest[0]["a"] == "NewQuery"
 
 
+# planners whose setProblemDefinition() override ends with clearQuery(): binding the definition that is bound already
+# is one more spelling of ClearQuery (multi-query use: rewrite start and goal of the one definition, hand it over again)
+REBIND_CLEARS = {"PRM", "PRMstar", "LazyPRM", "LazyPRMstar", "SPARS", "SPARStwo"}
+
+
+def requery_history(rng, mt):
+    k1 = "k400" if mt else rng.choice(["k150", "k400", "inf"])
+    k2 = "k400" if mt else rng.choice(["k60", "k150", "k400", "inf"])
+    return [{"a": "SetPdef", "p": "A"}, {"a": "Solve", "k": "inf"}, {"a": "NewQuery", "p": "A"},
+            {"a": "ClearQuery", "via": "rebind"}, {"a": "Solve", "k": k2}, {"a": "NewQuery", "p": "A"},
+            {"a": "ClearQuery", "via": rng.choice(["rebind", "call"])}, {"a": "Solve", "k": k1},
+            {"a": "GetPlannerData"}, {"a": "Destroy"}]
+
+
 def run(tier):
     ck = Check(PID, tier, "model_checking")
     ck.assumptions += [
@@ -142,6 +156,12 @@ def run(tier):
             for k in sweep_ks:   # small k are cheap for every planner (batch planners are interrupted while sampling)
                 hs.append(sweep_history(k, rng.choice(sweep_k2)))
         has_range = any(q["name"] == "range" for q in p.get("params", []))
+        if p["name"] in REBIND_CLEARS:
+            for h in hs:
+                for op in h:
+                    if op["a"] == "ClearQuery" and rng.random() < 0.5:
+                        op["via"] = "rebind"
+            hs += [requery_history(rng, mt) for _ in range(3 if tier == "quick" else 12)]
         for h in hs:
             W, H, obst = rng.choice(MAPS)
             jid += 1
